@@ -42,12 +42,13 @@ def repo_hash():
     return tree_hash(REPO)
 
 
-def dump(roots, tag='main', nobody=(), quiet=False):
+def dump(roots, tag='main', nobody=(), quiet=False, harness=None):
     """returns path of the JSON dump for the given root suffixes, rebuilt if /repo or the driver changed"""
     roots = sorted(set(roots))
     if not os.path.exists(DRIVER_BIN) or os.path.getmtime(DRIVER_BIN) < os.path.getmtime(os.path.join(DRIVER_DIR, 'src/main.rs')):
         build_driver()
-    key = hashlib.sha256((repo_hash() + '|' + ','.join(roots) + '|' + ','.join(nobody) + '|' +
+    hkey = tree_hash(os.path.join(VERIF, harness)) if harness else ''
+    key = hashlib.sha256((repo_hash() + '|' + hkey + '|' + ','.join(roots) + '|' + ','.join(nobody) + '|' +
                           hashlib.sha256(open(os.path.join(DRIVER_DIR, 'src/main.rs'), 'rb').read()).hexdigest()).encode()).hexdigest()[:24]
     out = os.path.join(CACHE, 'smir', f'{tag}-{key}.json')
     if os.path.exists(out):
@@ -64,22 +65,33 @@ def dump(roots, tag='main', nobody=(), quiet=False):
         r = sh(['rsync', '-a', '--exclude', 'target', '--exclude', '.git', REPO + '/', scratch + '/'])
         if r.returncode != 0:
             sys.stderr.write(r.stdout); raise SystemExit(2)
+        build_dir = scratch
+        crate_name, pkg_args = 'rasn_compiler', ['-p', 'rasn-compiler', '--lib']
+        if harness:
+            # a small crate of /verif that instantiates generic public entry points; it is the only workspace member,
+            # so the wrapper runs for it alone while rasn-compiler is an ordinary (path) dependency with MIR
+            shutil.copytree(os.path.join(VERIF, harness), os.path.join(scratch, harness))
+            shutil.copyfile(os.path.join(REPO, 'Cargo.lock'), os.path.join(scratch, harness, 'Cargo.lock'))
+            build_dir = os.path.join(scratch, harness)
+            crate_name, pkg_args = harness.replace('-', '_'), ['--lib']
         env = {'RUSTC_WORKSPACE_WRAPPER': DRIVER_BIN,
                'LD_LIBRARY_PATH': nightly_sysroot() + '/lib',
-               'SMIR_ROOTS': ';'.join(roots), 'SMIR_OUT': out + '.tmp', 'SMIR_CRATE': 'rasn_compiler',
+               'SMIR_ROOTS': ';'.join(roots), 'SMIR_OUT': out + '.tmp', 'SMIR_CRATE': crate_name,
                'SMIR_NOBODY': ';'.join(nobody), 'SMIR_ITEMS': '1',
-               'CARGO_TARGET_DIR': os.path.join(CACHE, 'smir-target'),
+               'CARGO_TARGET_DIR': os.path.join(CACHE, 'smir-target' + ('-' + harness if harness else '')),
                'CARGO_PROFILE_DEV_DEBUG_ASSERTIONS': 'false', 'CARGO_PROFILE_DEV_OVERFLOW_CHECKS': 'true',
                'CARGO_PROFILE_DEV_DEBUG': '0', 'RUSTUP_TOOLCHAIN': 'nightly'}
         # the wrapper's output is not part of cargo's fingerprint: force the crate to be recompiled
-        sh(['cargo', 'clean', '-p', 'rasn-compiler'], cwd=scratch, env=env)
-        r = sh(['cargo', 'build', '--offline', '-p', 'rasn-compiler', '--lib'], cwd=scratch, env=env)
+        sh(['cargo', 'clean', '-p', crate_name.replace('_', '-')], cwd=build_dir, env=env)
+        r = sh(['cargo', 'build', '--offline'] + pkg_args, cwd=build_dir, env=env)
         if r.returncode != 0 or not os.path.exists(out + '.tmp'):
             sys.stderr.write(r.stdout[-4000:]); sys.stderr.write('\nfront end failed\n'); raise SystemExit(2)
         os.rename(out + '.tmp', out)
         if os.path.exists(out + '.tmp.items'):
             os.rename(out + '.tmp.items', out + '.items')
-        sh(['cargo', 'clean', '-p', 'rasn-compiler'], cwd=scratch, env=env)
+        sh(['cargo', 'clean', '-p', crate_name.replace('_', '-')], cwd=build_dir, env=env)
+        if harness:
+            sh(['cargo', 'clean', '-p', 'rasn-compiler'], cwd=build_dir, env=env)
     finally:
         shutil.rmtree(scratch, ignore_errors=True)
     if not quiet:
